@@ -617,7 +617,7 @@ class Engine:
             if t == e:
                 return t
             return OR(AND(c, t), AND(NOT(c), e))
-        if k == 'Match' and _has_exit(s):
+        if k == 'Match' and (_has_exit(s) or (target is not None and any(target(n) for n in hir.nodes(s, into_closures=False)))):
             sc = self.term(s['scrut'], cx, known)
             alts = []
             prev = []
@@ -658,6 +658,15 @@ class Engine:
             pass
         self.walk_terms(s, cx, known)
         return self.survive_seq(rest, cx, known, loop_id, target)
+
+    def facts_in(self, key, stmts, target, env=None, known=None, vertex_params=()):
+        """like facts_at, for an arbitrary statement list (e.g. a closure body) with pre-bound locals"""
+        cx = Ctx(self, key, env or {}, set(vertex_params))
+        f = self.survive_seq(list(stmts), cx, set(known or ()), None, target)
+        try:
+            return dnf(f), cx
+        except Blowup:
+            return None, cx
 
     def facts_at(self, key, target, vertex_params=()):
         """DNF of the condition under which control reaches a statement satisfying `target` in function `key`"""
